@@ -63,6 +63,16 @@ type caseIn struct {
 	LateDeadlineMs int `json:"late_deadline_ms,omitempty"`
 	LateAnswerMs   int `json:"late_answer_ms,omitempty"`
 	LinkFailMs     int `json:"linkfail_ms,omitempty"` // >0: the link dies loudly this long after the first ping
+	// burst before the answer: two downstreams and two upstreams are open; BurstAtMs after the first ping
+	// the application issues one request (BurstKind: downclose | upclose | downopen | upopen | meta | call);
+	// the broker, on receiving it, first sends BurstN further frames (chunks for the stream being closed and
+	// for its sibling, ack-completes, metadata / upstream chunk acks), waits BurstWait ping intervals and only
+	// then answers; every ping is answered at once. The request must return nil, the sibling downstream
+	// must still deliver, an ordinary request must follow, the connection must stay.
+	BurstKind string `json:"burst_kind,omitempty"`
+	BurstN    int    `json:"burst_n,omitempty"`
+	BurstWait int    `json:"burst_wait_intervals,omitempty"`
+	BurstAtMs int    `json:"burst_at_ms,omitempty"`
 	// inbound flood: FloodAtMs after the first ping the broker sends FloodN items of one kind that the
 	// application does not consume (Consume "none") or consumes slowly ("slow"); every ping is answered
 	// at once; the window ends 3 intervals + timeout after the flood and an ordinary request follows
@@ -121,6 +131,7 @@ type obsT struct {
 	horizon   int // >0: the window the run actually observed (flood cases)
 	recovered int // when both the disconnected event and the second ConnectRequest had been seen; -1 = never
 	lateErrs  int // abandoned requests that did not return context.DeadlineExceeded
+	burstErr  string
 	overrun   int // ms between the planned end of the window and the moment the observation was taken
 	reqOK     bool
 	disc      bool
@@ -215,7 +226,6 @@ func runTiming(c *caseIn, r *rng.R) (o obsT) {
 	var closedAt time.Time
 	var disc, reconnect atomic.Bool
 	var ndisc, nrecon atomic.Int32
-	streamID := uuid.New()
 	b := broker.New(nil)
 	b.AutoPong.Store(false)
 	var refuse atomic.Bool
@@ -229,6 +239,65 @@ func runTiming(c *caseIn, r *rng.R) (o obsT) {
 		return nil
 	}
 	var discAt, reconnAt time.Time
+	var upAliasNext atomic.Uint32
+	var downAliases []uint32 // in the order the downstreams were opened (under mu)
+	var upAliases []uint32
+	var armed atomic.Bool
+	srcStream := uuid.New()
+	mkChunk := func(alias uint32, seq uint32) *message.DownstreamChunk {
+		return &message.DownstreamChunk{StreamIDAlias: alias,
+			UpstreamOrAlias: &message.UpstreamInfo{SessionID: "s", SourceNodeID: "src", StreamID: srcStream},
+			StreamChunk: &message.StreamChunk{SequenceNumber: seq, DataPointGroups: []*message.DataPointGroup{{
+				DataIDOrAlias: &message.DataID{Name: "n", Type: "t"},
+				DataPoints:    []*message.DataPoint{{ElapsedTime: time.Duration(seq), Payload: []byte{byte(seq)}}}}}}}
+	}
+	// burstThen: the frames that are already in flight when the broker gets the request, a pause, the answer,
+	// and one more chunk for the sibling downstream
+	burstThen := func(s *broker.Session, answer message.Message) {
+		mu.Lock()
+		da := append([]uint32(nil), downAliases...)
+		ua := append([]uint32(nil), upAliases...)
+		mu.Unlock()
+		for len(da) < 2 {
+			da = append(da, 0)
+		}
+		for len(ua) < 2 {
+			ua = append(ua, 0)
+		}
+		go func() {
+			for i := 0; i < c.BurstN; i++ {
+				var m message.Message
+				if c.BurstKind == "upclose" || c.BurstKind == "upopen" {
+					switch i % 4 {
+					case 0, 1:
+						m = &message.UpstreamChunkAck{StreamIDAlias: ua[0], Results: []*message.UpstreamChunkResult{{SequenceNumber: uint32(50000 + i), ResultCode: message.ResultCodeSucceeded}}}
+					case 2:
+						m = &message.UpstreamChunkAck{StreamIDAlias: ua[1], Results: []*message.UpstreamChunkResult{{SequenceNumber: uint32(50000 + i), ResultCode: message.ResultCodeSucceeded}}}
+					default:
+						m = mkChunk(da[1], uint32(i+1))
+					}
+				} else {
+					switch i % 6 {
+					case 0, 2:
+						m = mkChunk(da[0], uint32(i+1))
+					case 1, 3:
+						m = mkChunk(da[1], uint32(i+1))
+					case 4:
+						m = &message.DownstreamChunkAckComplete{StreamIDAlias: da[i/6%2], AckID: uint32(7000 + i), ResultCode: message.ResultCodeSucceeded, ResultString: "OK"}
+					default:
+						m = &message.DownstreamMetadata{RequestID: message.RequestID(3001 + 2*i), StreamIDAlias: da[1], SourceNodeID: "src",
+							Metadata: &message.BaseTime{SessionID: "s", Name: "m", Priority: 1, ElapsedTime: time.Duration(i), BaseTime: time.Unix(1700000000, 0).UTC()}}
+					}
+				}
+				if s.Send(m) != nil {
+					return
+				}
+			}
+			time.Sleep(time.Duration(c.BurstWait*c.IntervalMs) * time.Millisecond)
+			s.Send(answer)
+			s.Send(mkChunk(da[1], 9999))
+		}()
+	}
 	kaCfgs.Store(b.Address, &kaCloseCfg{delay: time.Duration(c.SlowCloseMs) * time.Millisecond, onClose: func(idx int, at time.Time) {
 		if idx == 0 {
 			mu.Lock()
@@ -309,8 +378,17 @@ func runTiming(c *caseIn, r *rng.R) (o obsT) {
 				mu.Unlock()
 			}
 		case *message.UpstreamOpenRequest:
-			resp := &message.UpstreamOpenResponse{RequestID: v.RequestID, AssignedStreamID: streamID, AssignedStreamIDAlias: 1,
+			resp := &message.UpstreamOpenResponse{RequestID: v.RequestID, AssignedStreamID: uuid.New(), AssignedStreamIDAlias: upAliasNext.Add(1),
 				ResultCode: message.ResultCodeSucceeded, ServerTime: time.Unix(1700000000, 0)}
+			if s.Idx == 0 {
+				mu.Lock()
+				upAliases = append(upAliases, resp.AssignedStreamIDAlias)
+				mu.Unlock()
+			}
+			if c.BurstKind == "upopen" && armed.CompareAndSwap(true, false) {
+				burstThen(s, resp)
+				return
+			}
 			if v.SessionID == "late" {
 				resp.AssignedStreamID, resp.AssignedStreamIDAlias = uuid.New(), 7
 				go func() {
@@ -322,6 +400,10 @@ func runTiming(c *caseIn, r *rng.R) (o obsT) {
 			s.Send(resp)
 		case *message.UpstreamMetadata:
 			ack := &message.UpstreamMetadataAck{RequestID: v.RequestID, ResultCode: message.ResultCodeSucceeded, ResultString: "OK"}
+			if c.BurstKind == "meta" && armed.CompareAndSwap(true, false) {
+				burstThen(s, ack)
+				return
+			}
 			if c.LateReqs > 0 {
 				go func() {
 					time.Sleep(time.Duration(c.LateAnswerMs) * time.Millisecond)
@@ -335,19 +417,46 @@ func runTiming(c *caseIn, r *rng.R) (o obsT) {
 		case *message.UpstreamChunk:
 			s.Send(&message.UpstreamChunkAck{StreamIDAlias: v.StreamIDAlias, Results: []*message.UpstreamChunkResult{{
 				SequenceNumber: v.StreamChunk.SequenceNumber, ResultCode: message.ResultCodeSucceeded}}})
+		case *message.UpstreamCall:
+			cack := &message.UpstreamCallAck{CallID: v.CallID, ResultCode: message.ResultCodeSucceeded, ResultString: "OK"}
+			if c.BurstKind == "call" && armed.CompareAndSwap(true, false) {
+				burstThen(s, cack)
+				return
+			}
+			s.Send(cack)
 		case *message.UpstreamCloseRequest:
-			s.Send(&message.UpstreamCloseResponse{RequestID: v.RequestID, ResultCode: message.ResultCodeSucceeded})
+			cresp := &message.UpstreamCloseResponse{RequestID: v.RequestID, ResultCode: message.ResultCodeSucceeded}
+			if c.BurstKind == "upclose" && armed.CompareAndSwap(true, false) {
+				burstThen(s, cresp)
+				return
+			}
+			s.Send(cresp)
 		case *message.DownstreamOpenRequest:
 			downAlias.Store(v.DesiredStreamIDAlias)
-			s.Send(&message.DownstreamOpenResponse{RequestID: v.RequestID, AssignedStreamID: streamID,
-				ResultCode: message.ResultCodeSucceeded, ResultString: "OK", ServerTime: time.Unix(1700000000, 0)})
+			oresp := &message.DownstreamOpenResponse{RequestID: v.RequestID, AssignedStreamID: uuid.New(),
+				ResultCode: message.ResultCodeSucceeded, ResultString: "OK", ServerTime: time.Unix(1700000000, 0)}
+			if c.BurstKind == "downopen" && armed.CompareAndSwap(true, false) {
+				burstThen(s, oresp)
+				return
+			}
+			if s.Idx == 0 {
+				mu.Lock()
+				downAliases = append(downAliases, v.DesiredStreamIDAlias)
+				mu.Unlock()
+			}
+			s.Send(oresp)
 		case *message.DownstreamResumeRequest:
 			s.Send(&message.DownstreamResumeResponse{RequestID: v.RequestID, ResultCode: message.ResultCodeSucceeded, ResultString: "OK"})
 		case *message.DownstreamChunkAck:
 			s.Send(&message.DownstreamChunkAckComplete{StreamIDAlias: v.StreamIDAlias, AckID: v.AckID,
 				ResultCode: message.ResultCodeSucceeded, ResultString: "OK"})
 		case *message.DownstreamCloseRequest:
-			s.Send(&message.DownstreamCloseResponse{RequestID: v.RequestID, ResultCode: message.ResultCodeSucceeded, ResultString: "OK"})
+			dresp := &message.DownstreamCloseResponse{RequestID: v.RequestID, ResultCode: message.ResultCodeSucceeded, ResultString: "OK"}
+			if c.BurstKind == "downclose" && armed.CompareAndSwap(true, false) {
+				burstThen(s, dresp)
+				return
+			}
+			s.Send(dresp)
 		}
 	}
 	release := true
@@ -434,6 +543,31 @@ func runTiming(c *caseIn, r *rng.R) (o obsT) {
 	}
 	reqOK := true
 	var down *iscp.Downstream
+	var tgtDown, sibDown *iscp.Downstream
+	var tgtUp *iscp.Upstream
+	if c.BurstKind != "" {
+		err, blocked := call(func() error {
+			ctx, cancel := context.WithTimeout(context.Background(), wd)
+			defer cancel()
+			var err error
+			flt := []*message.DownstreamFilter{message.NewDownstreamFilterAllFor("src")}
+			if tgtDown, err = conn.OpenDownstream(ctx, flt); err != nil {
+				return err
+			}
+			if sibDown, err = conn.OpenDownstream(ctx, flt); err != nil {
+				return err
+			}
+			if tgtUp, err = conn.OpenUpstream(ctx, "tgt", iscp.WithUpstreamFlushPolicyNone(), iscp.WithUpstreamCloseTimeout(100*time.Millisecond)); err != nil {
+				return err
+			}
+			_, err = conn.OpenUpstream(ctx, "sib", iscp.WithUpstreamFlushPolicyNone(), iscp.WithUpstreamCloseTimeout(100*time.Millisecond))
+			return err
+		})
+		if blocked || err != nil {
+			o.direct = fmt.Sprintf("harness: opening the streams of a burst case failed: %v blocked=%v", err, blocked)
+			return
+		}
+	}
 	switch c.FloodKind {
 	case "chunk", "meta":
 		err, blocked := call(func() error {
@@ -529,6 +663,48 @@ func runTiming(c *caseIn, r *rng.R) (o obsT) {
 			}
 		}()
 	}
+	burstDone := make(chan string, 1)
+	if c.BurstKind != "" {
+		go func() {
+			time.Sleep(time.Until(start.Add(time.Duration(c.BurstAtMs) * time.Millisecond)))
+			armed.Store(true)
+			ctx, cancel := context.WithTimeout(context.Background(), 2*time.Second)
+			defer cancel()
+			var err error
+			switch c.BurstKind {
+			case "downclose":
+				err = tgtDown.Close(ctx)
+			case "upclose":
+				err = tgtUp.Close(ctx)
+			case "downopen":
+				_, err = conn.OpenDownstream(ctx, []*message.DownstreamFilter{message.NewDownstreamFilterAllFor("src")})
+			case "upopen":
+				_, err = conn.OpenUpstream(ctx, "burst", iscp.WithUpstreamFlushPolicyNone(), iscp.WithUpstreamCloseTimeout(100*time.Millisecond))
+			case "meta":
+				err = conn.SendBaseTime(ctx, &message.BaseTime{SessionID: "s", Name: "b", Priority: 1, BaseTime: time.Unix(1700000000, 0)})
+			case "call":
+				_, err = conn.SendCall(ctx, &iscp.UpstreamCall{DestinationNodeID: "peer", Name: "n", Type: "t", Payload: []byte{1}})
+			}
+			if err != nil {
+				burstDone <- "the request answered after the burst returned: " + err.Error()
+				return
+			}
+			// the sibling downstream still delivers: the chunk the broker sent after the answer arrives
+			rctx, rcancel := context.WithTimeout(context.Background(), time.Second)
+			defer rcancel()
+			for {
+				ck, err := sibDown.ReadDataPoints(rctx)
+				if err != nil {
+					burstDone <- "the sibling downstream did not deliver the chunk sent after the answer: " + err.Error()
+					return
+				}
+				if ck.SequenceNumber == 9999 {
+					burstDone <- ""
+					return
+				}
+			}
+		}()
+	}
 	if c.FloodN > 0 {
 		s0 := b.WaitSession(0, wd)
 		floodDone := make(chan time.Time, 1)
@@ -578,7 +754,15 @@ func runTiming(c *caseIn, r *rng.R) (o obsT) {
 		}
 		time.Sleep(500 * time.Microsecond)
 	}
-	if c.FloodN > 0 || c.LateReqs > 0 {
+	burstErr := ""
+	if c.BurstKind != "" {
+		select {
+		case burstErr = <-burstDone:
+		case <-time.After(wd):
+			burstErr = "the request answered after the burst did not return within the watchdog"
+		}
+	}
+	if c.FloodN > 0 || c.LateReqs > 0 || c.BurstKind != "" {
 		// an ordinary request must still work after the flood / the late answers
 		err, blocked := call(func() error {
 			ctx, cancel := context.WithTimeout(context.Background(), time.Second)
@@ -586,7 +770,7 @@ func runTiming(c *caseIn, r *rng.R) (o obsT) {
 			_, err := conn.OpenUpstream(ctx, "after-flood", iscp.WithUpstreamFlushPolicyNone(), iscp.WithUpstreamCloseTimeout(100*time.Millisecond))
 			return err
 		})
-		reqOK = !blocked && err == nil
+		reqOK = !blocked && err == nil && burstErr == ""
 	}
 	// the client's pongs for the broker's last pings may still be under way
 	broker.WaitFor(50*time.Millisecond, func() bool {
@@ -599,10 +783,11 @@ func runTiming(c *caseIn, r *rng.R) (o obsT) {
 	defer mu.Unlock()
 	res := o
 	res.reqOK = reqOK
-	if c.FloodN == 0 && closedAt.IsZero() {
+	res.burstErr = burstErr
+	if c.FloodN == 0 && c.BurstKind == "" && closedAt.IsZero() {
 		res.overrun = ms(obsEnd.Sub(end))
 	}
-	if c.FloodN > 0 {
+	if c.FloodN > 0 || c.BurstKind != "" {
 		res.horizon = ms(obsEnd.Sub(t0))
 	}
 	res.ptimes = append([]int(nil), o.ptimes...)
@@ -1035,6 +1220,34 @@ func genStall(slack, early int, r *rng.R, add func(*caseIn, string)) {
 	}
 }
 
+// alive with a burst of inbound frames between a request and its answer (data in flight when the
+// broker receives the request): the reader and the dispatchers must keep going while the request waits
+func genBursts(slack, early int, add func(*caseIn, string)) {
+	k := 0
+	mk := func(kind string, n, wait int) {
+		I := []int{40, 80}[k%2]
+		TO := []int{20, 60, 60}[k%3]
+		c := &caseIn{Kind: "timing", IntervalMs: I, TimeoutMs: TO, SlackMs: slack, EarlyMs: early, Rest: 0, BPings: k % 2,
+			BurstKind: kind, BurstN: n, BurstWait: wait, BurstAtMs: 15}
+		c.HorizonMs = c.BurstAtMs + wait*I + 3*I + TO + 50
+		k++
+		add(c, "alive-burst-"+kind)
+	}
+	for _, n := range []int{12, 24, 40} {
+		for _, wait := range []int{1, 2} {
+			mk("downclose", n, wait)
+		}
+	}
+	for _, n := range []int{24, 40} {
+		for _, wait := range []int{1, 2} {
+			mk("upclose", n, wait)
+		}
+	}
+	for _, kind := range []string{"downopen", "upopen", "meta", "call"} {
+		mk(kind, 24, 1)
+	}
+}
+
 // alive with late answers to abandoned requests: the caller of a request gives up after 30-50 ms,
 // the broker answers it after 150 ms; pings are answered at once; the connection must stay
 func genLateAnswers(slack, early int, add func(*caseIn, string)) {
@@ -1172,6 +1385,7 @@ func main() {
 		genFloods(*slack, *early, add)
 		genAliveSlow(*slack, *early, r.Fork(), add)
 		genLateAnswers(*slack, *early, add)
+		genBursts(*slack, *early, add)
 		for i := 0; i < nloud; i++ {
 			add(genLoud(r.Fork(), *slack, *early), "loud")
 		}
@@ -1259,10 +1473,10 @@ func main() {
 		}
 		obs := map[string]interface{}{"ping_times": o.ptimes, "pong_times": o.pongs, "ping_ids": o.pids, "close": o.closeAt,
 			"broker_pings": o.bpings, "echo": o.echo, "disconnected_event": o.disc, "reconnect": o.reconnect,
-			"announced": []uint64{o.annI, o.annT}, "attempts": o.attempts, "request_after_flood_ok": o.reqOK, "recovered": o.recovered, "late_requests_not_abandoned": o.lateErrs, "observed_window_ms": o.horizon}
+			"announced": []uint64{o.annI, o.annT}, "attempts": o.attempts, "request_after_flood_ok": o.reqOK, "recovered": o.recovered, "late_requests_not_abandoned": o.lateErrs, "burst_request_error": o.burstErr, "observed_window_ms": o.horizon}
 		w.Add(coqfmt.Case{Term: term(j.c, o), Input: j.c, Observed: obs, Seed: j.seed, Nontrivial: nt, Kind: j.kind, Direct: o.direct})
 	}
-	rule := "timing: interval {40,80,150} ms x timeout {20,60} ms plus timeout > interval pairs (40,120) (50,150) (and (40,200) (80,200) in alive-slow: every pong of 4-6 or of all pings after 0.6/0.75/0.9 x timeout, longer than the interval, so that pings leave back to back on buffered ticks - the client must stay); the broker answers k=0..5 pings after 0/0.5x/0.9x timeout and then stops or answers after 1.5x timeout (dead), or keeps answering in time (alive), or answers in time while the link dies loudly between two pings or while a pong is under way (loud); inbound flood: the broker sends 1030/1100/2100 (chunks and metadata also 3300) request calls / reply calls / downstream chunks / downstream metadata / upstream chunk acks that the application never consumes (or consumes slowly) while answering every ping at once - the connection must stay for 3 intervals + timeout after the flood and an ordinary request must then succeed; a quarter of the dead and half of the grid-dead cases over a transport whose Close takes 300 ms / 1 s (recovery = disconnected event and second ConnectRequest must come within the bound all the same); dead-stall: after k=0..2 answered pings the broker reads one more ping and then neither answers nor reads (client writes block; transport open) - close, disconnected event and redial within the bound; seconds-alive/seconds-dead: interval/timeout 1 s/1.8 s, 1.5 s/1.5 s with every pong after 1.4 s/1.2 s (stay), 1.2 s/1 s dead after the first pong (configured, untruncated values in the loop); alive-late-answers: 1/2/4 application requests (metadata, upstream open) abandoned after 30-50 ms and answered by the broker after 150 ms while every ping is answered at once, then an ordinary request; half with concurrent chunk traffic and an open request, 0-2 broker pings per client ping; grid of every (interval, timeout, k<=3, delay, stop/late) plus random. announce: fixed table (1500 ms, 999 ms, 1 s, 2 h, 0 = default, 2^32 s wrap, 2^24 s - 1 ns) plus random durations. non-trivial = at least two pings reached the broker (timing) / a duration that is not a whole number of seconds (announce); distinct = distinct Coq case terms"
+	rule := "timing: interval {40,80,150} ms x timeout {20,60} ms plus timeout > interval pairs (40,120) (50,150) (and (40,200) (80,200) in alive-slow: every pong of 4-6 or of all pings after 0.6/0.75/0.9 x timeout, longer than the interval, so that pings leave back to back on buffered ticks - the client must stay); the broker answers k=0..5 pings after 0/0.5x/0.9x timeout and then stops or answers after 1.5x timeout (dead), or keeps answering in time (alive), or answers in time while the link dies loudly between two pings or while a pong is under way (loud); inbound flood: the broker sends 1030/1100/2100 (chunks and metadata also 3300) request calls / reply calls / downstream chunks / downstream metadata / upstream chunk acks that the application never consumes (or consumes slowly) while answering every ping at once - the connection must stay for 3 intervals + timeout after the flood and an ordinary request must then succeed; a quarter of the dead and half of the grid-dead cases over a transport whose Close takes 300 ms / 1 s (recovery = disconnected event and second ConnectRequest must come within the bound all the same); dead-stall: after k=0..2 answered pings the broker reads one more ping and then neither answers nor reads (client writes block; transport open) - close, disconnected event and redial within the bound; seconds-alive/seconds-dead: interval/timeout 1 s/1.8 s, 1.5 s/1.5 s with every pong after 1.4 s/1.2 s (stay), 1.2 s/1 s dead after the first pong (configured, untruncated values in the loop); alive-burst: two downstreams and two upstreams open, the application closes a downstream / an upstream (or opens one, sends metadata, sends an e2e call) and the broker sends 12/24/40 frames for that stream and its sibling (chunks, ack-completes, metadata, upstream chunk acks) BETWEEN the request and its answer, which it holds back for 1-2 ping intervals - the request returns nil, the sibling downstream still delivers, an ordinary request follows, the connection stays (exercises the premise that the reader and the dispatchers keep running while a request waits); alive-late-answers: 1/2/4 application requests (metadata, upstream open) abandoned after 30-50 ms and answered by the broker after 150 ms while every ping is answered at once, then an ordinary request; half with concurrent chunk traffic and an open request, 0-2 broker pings per client ping; grid of every (interval, timeout, k<=3, delay, stop/late) plus random. announce: fixed table (1500 ms, 999 ms, 1 s, 2 h, 0 = default, 2^32 s wrap, 2^24 s - 1 ns) plus random durations. non-trivial = at least two pings reached the broker (timing) / a duration that is not a whole number of seconds (announce); distinct = distinct Coq case terms"
 	extra := map[string]interface{}{"missed_first_run": missed, "retried": retried, "recovered_on_retry": recovered, "slack_ms": *slack, "early_ms": *early, "guard_ms": *guard, "parallel": *par}
 	if err := w.Flush(*seed, *tier, rule, false, extra); err != nil {
 		fmt.Fprintln(os.Stderr, err)
